@@ -23,7 +23,7 @@ RULE = ("fits (and sparse paths) of every batched family and the nonparametric o
 ASSUMPTIONS = ["rows of the generated X are pairwise distinct, so a batch row identifies its sample"]
 EVAL_COUNTER = "epochs"
 REQUIRED = {"quick": {"epochs": 1500, "epochs_multi_batch": 600, "affinity_blocks_checked": 1500, "consumer_steps": 2500,
-                      "decorated_consumer_steps": 200, "batch_size_set_after_construction": 120, "batch_size_set_after_decoration": 25, "fits_step_count_checked": 500, "nonparametric_epochs": 100,
+                      "decorated_consumer_steps": 200, "dynamic_paths": 6, "batch_size_set_after_construction": 120, "batch_size_set_after_decoration": 15, "fits_step_count_checked": 500, "nonparametric_epochs": 100,
                       "path_validation_blocks": 200, "coded_affinity_fits": 25, "tail_batches": 200},
             "thorough": {"epochs": 30000, "consumer_steps": 60000, "path_validation_blocks": 4000}}
 SHARD_TIMEOUT = {"quick": 1200, "thorough": 7000}
@@ -47,6 +47,11 @@ class State(_train.Listener):
                 if "_infer" in vars(cls) and cls not in seen and not getattr(vars(cls)["_infer"], "__isabstractmethod__", False):
                     seen.add(cls)
                     self.patcher.setattr(cls, "_infer", self._wrap_infer(vars(cls)["_infer"]))
+        for name in gen.SPARSE:
+            for cls in gen.get_class(name).__mro__:
+                if "get_selection" in vars(cls) and ("gs", cls) not in seen:
+                    seen.add(("gs", cls))
+                    self.patcher.setattr(cls, "get_selection", self._wrap_sel(vars(cls)["get_selection"]))
         import gemclus.sparse._base_sparse as bs
         self.orig_val = bs.compute_val_score
         self.patcher.rebind(bs.compute_val_score, self._wrap_val(bs.compute_val_score))
@@ -65,6 +70,8 @@ class State(_train.Listener):
         self.Xfull = None
         self.user_y = None
         self.decorated = False
+        self.dynamic_path = False
+        self.last_selection = None
 
     def close(self):
         self.patcher.restore()
@@ -81,6 +88,17 @@ class State(_train.Listener):
             return orig(self, X, retain)
         _infer.__wrapped__ = orig
         return _infer
+
+    def _wrap_sel(self, orig):
+        st = self
+
+        def get_selection(self_):
+            out = orig(self_)
+            if st.model is self_ and st.in_val is None:
+                st.last_selection = np.array(out, copy=True)
+            return out
+        get_selection.__wrapped__ = orig
+        return get_selection
 
     def on_eval(self, gem, P, A, return_grad, res, orig):
         if self.in_val is not None:
@@ -115,6 +133,28 @@ class State(_train.Listener):
             if rec is None or [int(x) for x in rec] != [int(x) for x in ids]:
                 ctx.violation("recorded-indices", "decorated-indices-wrong", observed={"recorded": rec, "true_ids": ids},
                               expected="equal")
+        if self.Afull is None and Ac is not None and self.dynamic_path:
+            # no full matrix went through _batchify although the objective received one: it was built some other way.
+            # What counts is its content - the rows and columns `ids` of the full affinity of the data restricted to the
+            # features selected when the path step began (or of all the data)
+            gem = model.get_gemini()
+            cands = [np.asarray(self.Xfull)]
+            if self.last_selection is not None and len(self.last_selection):
+                cands.append(np.asarray(self.Xfull)[:, self.last_selection])
+            ok = False
+            for Xc_ in cands:
+                try:
+                    full = np.asarray(gem.compute_affinity(Xc_))
+                    blk = full[ids][:, ids]
+                    ok = ok or (np.shape(Ac) == blk.shape and np.allclose(np.asarray(Ac), blk, rtol=1e-10, atol=1e-12 * max(1.0, float(np.max(np.abs(full))))))
+                except Exception:
+                    pass
+            ctx.count("affinity_built_outside_batchify_compared")
+            if not ok:
+                ctx.violation("consumer-affinity", "training-affinity-not-aligned-with-rows",
+                              observed={"ids": ids, "affinity_used": Ac, "note": "no full matrix was handed to _batchify"},
+                              expected="rows / columns ids of the full affinity of the selected features")
+            return
         if (self.Afull is None) != (Ac is None):
             ctx.violation("consumer-affinity", "affinity-none-mismatch",
                           observed={"full_is_none": self.Afull is None, "batch_is_none": Ac is None}, expected="same")
@@ -306,7 +346,18 @@ def run_case(case, ctx, st):
     ctx.case = dict(case, estimator=name, params=params, n=n, d=d, coded=coded, decorated=decorated, path=use_path)
     try:
         if use_path:
-            est.set_params(alpha=0.2, dynamic=False) if "dynamic" in est.get_params() else est.set_params(alpha=0.2)
+            dyn = "dynamic" in est.get_params() and y is None and rng.random() < 0.5
+            if dyn and rng.random() < 0.6:
+                # a kernel whose entries depend on the sample set it is computed on
+                if "kernel" in est.get_params():
+                    est.set_params(kernel=gen.CALLABLES["cb_centred"], kernel_params=None)
+                elif "gemini" in est.get_params() and name != "SparseLinearMI":
+                    import gemclus.gemini as gg
+                    est.set_params(gemini=gg.MMDGEMINI(kernel=gen.CALLABLES["cb_centred"], ovo=bool(rng.random() < 0.5)))
+            est.set_params(alpha=0.2, dynamic=dyn) if "dynamic" in est.get_params() else est.set_params(alpha=0.2)
+            st.dynamic_path = dyn
+            if dyn:
+                ctx.count("dynamic_paths")
             est.path(X, y, alpha_multiplier=2.0, min_features=max(1, d - 1), max_patience=2)
             ctx.count("paths")
         else:
